@@ -31,6 +31,7 @@ class C15(Prop):
         "Stgutg.Proofs.GenTie.Milenage.GenerateOPC_eq",
         "Stgutg.Proofs.GenTie.Milenage.Milenage_auts_eq",
         "Stgutg.Proofs.GenTie.Milenage.Milenage_check_eq",
+        "Stgutg.Proofs.GenTie.Milenage.MilenageGenerate_eq",
     ]
     domains = [Domain("milenage", 40, 1500)]
     rule = ("milenage: per base case (random K/OP/RAND/AMF, network SQN random or boundary) GenerateOPC, F1, F2345 (all and "
@@ -44,15 +45,15 @@ class C15(Prop):
                     "output buffers are modelled as nil or fresh zeroed buffers of the documented size; slices have cap == len",
                     "TIE BY TRANSLATION (gen pure-milenage, harness/cmd/gen/pure_milenage.go = the BUFFER grammar of the pure-* translators -> "
                     "lean/Stgutg/Gen/PureMilenage.lean, regenerated from the source text of milenage.go on every run): os_memcmp, milenageF1, "
-                    "milenageF2345, F1, F2345, GenerateOPC, Milenage_auts, Milenage_check are tied by theorems generated = hand model (Proofs/GenTieMilenage*.lean: os_memcmp_eq "
+                    "milenageF2345, F1, F2345, GenerateOPC, MilenageGenerate, Milenage_check, Milenage_auts (every function of milenage.go that the hand model covers; Gsm_milenage and InsertData are neither modelled nor translated) are tied by theorems generated = hand model (Proofs/GenTieMilenage*.lean: os_memcmp_eq "
                     "for all slices and every count; milenageF1_eq / F1_eq / milenageF2345_eq / F2345_eq for ALL input lengths, every key, "
                     "each output buffer nil or of its documented size holding anything (a present buffer receives the model's value, a "
                     "NewCipher error leaves every buffer untouched, a trap is a trap); GenerateOPC_eq for all lengths; Milenage_auts_eq for all lengths, "
                     "SQN buffer of 6 fresh octets: return code and SQN as the model says; Milenage_check_eq for all lengths, IK/CK/RES/AUTS buffers fresh "
                     "and of the documented sizes, *res_len any value: return code, buffers and *res_len as the model says), so a change of the Go "
-                    "text changes the generated definition and the theorem stops checking, whatever input would show it. MilenageGenerate "
-                    "is TRANSLATED too (the generated text is rebuilt and type-checked on every run) but not yet "
-                    "tied by a theorem: for it the differential domain `milenage` remains the tie. Trusted here instead of sampling: the "
+                    "text changes the generated definition and the theorem stops checking, whatever input would show it (MilenageGenerate_eq: all "
+                    "input lengths, AUTN/IK/CK/AK/RES buffers fresh and of the documented sizes, *res_len any value). The differential domain "
+                    "`milenage` stays as a second tie and covers what the hand model does not (odd-sized buffers). Trusted here instead of sampling: the "
                     "buffer grammar (header of pure_milenage.go) and its runtime Gen/PureRt.lean + Gen/PureRtBuf.lean: a slice parameter the "
                     "function writes is an OUT-PARAMETER returned with the Go results (nothing is said about buffers after a panic); ASSUMED "
                     "of external callers, as by the hand model: an out-parameter shares no storage with another slice argument and every "
